@@ -1029,7 +1029,10 @@ async fn run(_tier: Tier) {
     if let Some((reader, soa_then)) = &held {
         // (A name one label outside the universe: no node of any version.)
         if let Ok(a) = query_zone(reader.as_ref(), &format!("held-reader-probe.{}", APEX), Rtype::A) {
-            if !a.authority.iter().any(|r| r.1 == Rtype::SOA) {
+            // (A wildcard at the apex level may match the probe name: only
+            // negative answers carry the SOA.)
+            let negative = a.rcode == "NXDOMAIN" || (a.rcode == "NOERROR" && a.answer.is_empty() && !a.authority.iter().any(|r| r.1 == Rtype::NS));
+            if negative && !a.authority.iter().any(|r| r.1 == Rtype::SOA) {
                 sim::violation(P8, "query", "held-reader-lost-its-soa".to_string(), format!("a reader taken when the SOA was [{}] and kept across later commits answers {} without an SOA in the authority section", soa_then, a.rcode));
                 return;
             }
